@@ -20,7 +20,7 @@ class Script:
 class PortExtras:
     """the rest of pyserial's Serial interface, as harmless no-ops / plausible constants: code under test may legitimately call any of it
     (flushing, buffer resets, open-state and timeout attributes); only write / readline / close carry meaning for the properties"""
-    is_open = True; timeout = 1.0; write_timeout = None; baudrate = 9600; in_waiting = 0; out_waiting = 0; name = "/dev/ttyACM0"
+    is_open = True; timeout = 1.0; write_timeout = None; baudrate = 9600; in_waiting = 0; out_waiting = 0; name = "/dev/ttyACM0"; port = "/dev/ttyACM0"
     def flush(self): pass
     def reset_input_buffer(self): pass
     def reset_output_buffer(self): pass
@@ -64,6 +64,7 @@ class FakePort(PortExtras):
         # an I/O exception is an I/O exception whatever error number it carries: every third one carries a "try again" / "interrupted"
         # number (EAGAIN, EWOULDBLOCK, EINTR), the others EIO or none
         k = (self.script.consumed // max(1, len(pool))) % 3
+        if self.wide_faults and self.script.consumed % 4 == 3: return cls()          # an exception raised without any argument (args == ())
         if issubclass(cls, serial.SerialException):
             if k == 1 and self.wide_faults: return cls([11, 4, 11][self.script.consumed % 3], "Resource temporarily unavailable (injected fault on %s)" % where)
             return cls("injected fault on %s" % where)
